@@ -19,32 +19,21 @@ extern "C" Delta const * stub_Lb(LRAModel const *, LVRef v) { return lbs[v.x]; }
 extern "C" Delta const * stub_Ub(LRAModel const *, LVRef v) { return ubs[v.x]; }
 extern "C" bool stub_isQuasiBasic(Tableau const *, LVRef) { return false; }
 
-// gcd of the word fast paths on the small operands of this harness: exact Euclid at 8 bits (the real 32/64-bit Euclid loop with its
-// symbolic 64-bit remainders is what makes the query intractable; FastRational's own exactness incl. gcd is C15)
-static uint8_t gcd8(uint64_t a, uint64_t b) {
-    VASSERT(a < 128 && b < 128, "harness bound: gcd operands below 128"); VASSUME(a < 128 && b < 128);
-    uint8_t x = (uint8_t)a, y = (uint8_t)b;
-    for (int i = 0; i < 10; i++) { if (y == 0) break; uint8_t t = x % y; x = y; y = t; }
-    VASSERT(y == 0, "harness: 8-bit Euclid finished"); VASSUME(y == 0);
-    return x;
-}
-extern "C" uint32_t stub_gcd_u32(uint32_t a, uint32_t b) { return gcd8(a, b); }
-extern "C" uint64_t stub_gcd_u64(uint64_t a, uint64_t b) { return gcd8(a, b); }
 static int32_t small(int lo, int hi) { int32_t v = (int8_t)nondet_u8(); VASSUME(v >= lo && v <= hi); return v; }
 // x * y for |x| small and 0 <= y <= 7 without a multiplier circuit
 static int32_t mul3(int32_t x, int32_t y) { return ((y & 1) ? x : 0) + ((y & 2) ? x + x : 0) + ((y & 4) ? 4 * x : 0); }
 static bool getfrac(Real const & r, int32_t & n, int32_t & d) { auto nd = r.tryGetNumDen(); if (!nd) return false; n = nd->first; d = (int32_t)nd->second; return true; }
 
-template <int N> static void delta_model() {
+template <int N, int RR, int DD> static void delta_model() {   // values R in [-RR,RR], D in [-DD,DD]
     int32_t R[2], D[2], lR[2], lD[2], uR[2], uD[2];
     LASolver & s = raw.s;
     new (&s.laVarStore) LAVarStore();
     new (&s.concrete_model) std::vector<Real>();
     theVars = &s.laVarStore;
     for (int i = 0; i < N; i++) {
-        R[i] = small(-3, 3); D[i] = small(-2, 2);
-        lR[i] = small(-3, 3); lD[i] = small(0, 1);          // lower bounds: x >= c is (c,0), x > c is (c,+1)
-        uR[i] = small(-3, 3); uD[i] = small(-1, 0);         // upper bounds: x <= c is (c,0), x < c is (c,-1)
+        R[i] = small(-RR, RR); D[i] = small(-DD, DD);
+        lR[i] = small(-RR, RR); lD[i] = small(0, 1);          // lower bounds: x >= c is (c,0), x > c is (c,+1)
+        uR[i] = small(-RR, RR); uD[i] = small(-1, 0);         // upper bounds: x <= c is (c,0), x < c is (c,-1)
         hasL[i] = nondet_bool(); hasU[i] = nondet_bool();
         // the model is inside its bounds in the delta order (invariant of a SAT state of the simplex)
         if (hasL[i]) VASSUME(lR[i] < R[i] || (lR[i] == R[i] && lD[i] <= D[i]));
@@ -84,7 +73,7 @@ template <int N> static void delta_model() {
     VWITNESS("model");
     if (tight) { VWITNESS("delta-constrained-by-a-strict-bound"); }
     if (p < q) { VWITNESS("delta-below-one"); }
-    if (q > 2) { VWITNESS("delta-with-denominator-above-two"); }
+    if (DD > 1) { if (q > 2) { VWITNESS("delta-with-denominator-above-two"); } }
 }
-extern "C" void h_delta_model_1() { delta_model<1>(); }
-extern "C" void h_delta_model_2() { delta_model<2>(); }
+extern "C" void h_delta_model_1() { delta_model<1, 3, 2>(); }
+extern "C" void h_delta_model_2() { delta_model<2, 1, 1>(); }
